@@ -30,7 +30,7 @@ class C17(Check):
               "same path must be imported anew",
         "U5": "the generated source is written before it is imported, and the model is built from exactly that module",
     }
-    floors = {"U1": 2, "U2": 4, "U4": 1, "U5": 2, "U6": 1}
+    floors = {"U1": 2, "U2": 4, "U3": 2, "U4": 1, "U5": 2, "U6": 1}
     decided = [
         "two documents read in one session (same stem, different directory or content) get different generated modules",
         "generated functions are called with the arguments they were defined with",
@@ -168,15 +168,23 @@ class C17(Check):
         else:
             self.violated("U4", MOD, ts.name, "exhaustive", ts, "a stoichiometry shape falls through without being carried over",
                           witness="a rule-defined stoichiometry is dropped / a named one becomes a computed constant")
-        # ---- U3 (INFO unless refused)
+        # ---- U3
         ia = [l for l in strip_docstring(cgf.body) if isinstance(l, ast.For) and "initial_assignments" in norm(l.iter)]
-        if ia:
-            chain = [s for s in ia[0].body if isinstance(s, ast.If)]
-            has_else = bool(chain and chain[0].orelse and not (len(chain[0].orelse) == 1 and isinstance(chain[0].orelse[0], ast.If) and not chain[0].orelse[0].orelse))
-            if has_else:
-                self.holds("U3", MOD, "_codegen", "assignment-applied-or-refused", ia[0], "an assignment whose target is neither parameter nor variable is handled explicitly")
-            else:
-                self.info("U3", MOD, "_codegen", "assignment-applied-or-refused", ia[0],
+        if not ia:
+            self.violated("U3", MOD, "_codegen", "assignments-applied", cgf, "the document's initial assignments are not applied at all",
+                          witness="a species with an <initialAssignment> starts from its plain initialConcentration")
+        else:
+            t = " ".join(norm(ia[0]).split())
+            for kind in ("parameters", "variables"):
+                if f"key in model.{kind}: sym.{kind}[key].value = SymbolicFn(fn_name=key, expr=der, args=free_symbols(der))" in t:
+                    self.holds("U3", MOD, "_codegen", f"assignments-applied-to-{kind}", ia[0], f"an initial assignment on a {kind[:-1]} replaces its value by the assignment's function")
+                else:
+                    self.violated("U3", MOD, "_codegen", f"assignments-applied-to-{kind}", ia[0], f"initial assignments on {kind} are not applied",
+                                  witness=f"a {kind[:-1]} with an <initialAssignment>: the imported model starts from the plain value")
+            chain = [s_ for s_ in ia[0].body if isinstance(s_, ast.If)]
+            has_else = bool(chain) and bool(chain[0].orelse) and not (len(chain[0].orelse) == 1 and isinstance(chain[0].orelse[0], ast.If) and not chain[0].orelse[0].orelse)
+            if not has_else:
+                self.info("U3", MOD, "_codegen", "assignment-on-other-target", ia[0],
                           "an initial assignment whose target is neither a parameter nor a variable of the transformed model is silently skipped; "
                           "whether pysbml can hand over such a target was not established, so this is not armed")
 
@@ -185,6 +193,7 @@ class C17(Check):
             Variant("reintroduce-stem-only", MOD, "read", "out_name = f'{valid_filename(file.stem)}_{digest}'", "out_name = valid_filename(file.stem)", expect="U1|", quick=True),
             Variant("digest-of-path-only", MOD, "read", "hashlib.sha256(str(file.resolve()).encode() + b'\\x00' + file.read_bytes())", "hashlib.sha256(str(file.resolve()).encode())", expect="U1|", quick=True),
             Variant("imported-models-cached-by-path", MOD, "", "def read(file: Path) -> Model:", "_IMPORTED: dict = {}\n\n\ndef _remember(file, model_fn):\n    _IMPORTED[file.resolve()] = model_fn\n\n\ndef read(file: Path) -> Model:", expect="U6|", quick=True),
+            Variant("species-assignments-dropped", MOD, "_codegen", "        elif key in model.variables:\n            sym.variables[key].value = SymbolicFn(fn_name=key, expr=der, args=free_symbols(der))\n", "", expect="U3|"),
             Variant("digest-of-stem", MOD, "read", "hashlib.sha256(str(file.resolve()).encode() + b'\\x00' + file.read_bytes())", "hashlib.sha256(file.stem.encode())", expect="U1|", quick=True),
             Variant("args-from-other-expression", MOD, "_codegen", "sym.derived[key] = SymbolicFn(fn_name=key, expr=der, args=free_symbols(der))",
                     "sym.derived[key] = SymbolicFn(fn_name=key, expr=der, args=sorted(model.parameters))", expect="U2|", quick=True),
